@@ -331,7 +331,7 @@ fn judge_reopen(h: &MHist, mroot: &Path, allowed: &[State]) -> (Option<(String, 
 
 /// After a successful reopen of a damaged manifest: apply one more edit, reopen again, and
 /// require exactly (what the reopen showed) + (that edit).
-fn edit_after_recovery(h: &MHist, mroot: &Path) -> Option<(String, String)> {
+fn edit_after_recovery(h: &MHist, mroot: &Path, chain: bool) -> Option<(String, String)> {
     exec::quiet_panics(true);
     let r = catch_unwind(AssertUnwindSafe(|| -> Result<(), (String, String)> {
         let mut m = Manifest::open(options(h.ratio), mroot).map_err(|e| ("second-reopen-failed".to_string(), format!("{e}")))?;
@@ -340,7 +340,21 @@ fn edit_after_recovery(h: &MHist, mroot: &Path) -> Option<(String, String)> {
         e.add("zz-added-after-recovery").map_err(|x| ("edit-rejected".to_string(), format!("{x}")))?;
         e.info('z', "after-recovery").map_err(|x| ("edit-rejected".to_string(), format!("{x}")))?;
         m.apply(e).map_err(|x| ("apply-after-recovery-failed".to_string(), format!("{x}")))?;
+        // After a crash (not after an arbitrary cut, which may have destroyed a roll-up) the handle
+        // that recovered keeps working: a rollover through it, one more (empty) edit, and the
+        // fragments must still chain without gaps.
+        if chain {
+            m.rollover().map_err(|x| ("rollover-after-recovery-failed".to_string(), format!("{x}")))?;
+            m.apply(Edit::default()).map_err(|x| ("apply-after-recovery-failed".to_string(), format!("{x}")))?;
+        }
         drop(m);
+        let errs: Vec<String> = if chain { Manifest::verify(options(h.ratio), mroot).map(|e| format!("{e}")).collect() } else { Vec::new() };
+        if !errs.is_empty() {
+            return Err((
+                format!("fragments-do-not-chain-after-recovery-and-rollover:{}", err_class(&errs[0])),
+                format!("Manifest::verify reports: {}", errs.join(" | ")),
+            ));
+        }
         let m = Manifest::open(options(h.ratio), mroot)
             .map_err(|e| ("reopen-after-acknowledged-edit-failed".to_string(), format!("the edit applied after recovery was acknowledged, then: {e}")))?;
         let got = read_state(&m);
@@ -465,6 +479,15 @@ fn examine(h: &MHist, worker: usize, seed: u64, only: Option<(Option<(u64, Persi
                     v.class = format!("after-crash:{}", v.class);
                     v.crash = Some((pi as u64, persist));
                     res.viols.push(v);
+                } else {
+                    // and the handle that performs the recovery keeps working: the image once
+                    // more, untouched, so that this open is the recovering one; then edit,
+                    // rollover, edit through that handle
+                    let _ = std::fs::remove_dir_all(&img_dir);
+                    image.materialize(&img_dir, persist).expect("materialize");
+                    if let Some((class, detail)) = edit_after_recovery(h, &img_dir.join("m"), true) {
+                        res.viols.push(Viol { class: format!("after-crash:{class}"), detail, crash: Some((pi as u64, persist)), cut: None });
+                    }
                 }
             }
         }
@@ -508,7 +531,7 @@ fn examine(h: &MHist, worker: usize, seed: u64, only: Option<(Option<(u64, Persi
                 } else if tag == "prefix-state" {
                     // The recovered manifest must keep working: one more edit, one more reopen.
                     // (judge_reopen opened and dropped it once already, which is the first reopen.)
-                    if let Some((class, detail)) = edit_after_recovery(h, &cut_dir) {
+                    if let Some((class, detail)) = edit_after_recovery(h, &cut_dir, false) {
                         res.viols.push(Viol { class: format!("cut:{class}"), detail: format!("MANIFEST cut to {len} of {} bytes: {detail}", bytes.len()), crash: None, cut: Some(len as u64) });
                     }
                 }
